@@ -1,6 +1,7 @@
 import QuantemModel.Lemmas.Resample
 import QuantemModel.Lemmas.ResampleSpectral
 import QuantemModel.Lemmas.ResampleNd
+import QuantemModel.Lemmas.ResampleCalib
 /-!
 C06 — binning, Fourier resampling, padding and cropping obey conservation laws.
 Theorems about `Model/Resample.lean` (the array and calibration arithmetic of
@@ -290,6 +291,76 @@ original array — by induction over the axis list from the 1-D round trip. -/
 theorem resampleNd_roundtrip_fold (a : Arr (Cx ℝ)) (ha : WFArr a) (up : List (ℕ × ℕ))
     (h : UpOk a.shape up) : resampleFold (resampleFold a up) (downPairs a.shape up) = a :=
   resampleFold_up_down a ha up h
+
+/-- **N-D round trip of `fourier_resample` (complex data, rescales included)**: up-sampling any
+distinct axes and resampling the same axes back to their original lengths returns the
+original array. -/
+theorem resampleNd_roundtrip (a : Arr (Cx ℝ)) (ha : WFArr a) (axes outs : List ℕ) (hnd : axes.Nodup)
+    (hl : axes.length = outs.length) (hv : ∀ ax ∈ axes, ax < a.shape.length)
+    (h : UpOk a.shape (axes.zip outs)) (hok : PairsOk a.shape (axes.zip outs)) :
+    resampleNd (resampleNd a axes outs false) axes.reverse
+      (axes.map fun ax => a.shape.getD ax 1).reverse false = a :=
+  resampleNd_up_down a ha axes outs hnd hl hv h hok
+
+/-- **N-D calibration**: after `fourier_resample` along distinct axes, every resampled axis
+`ax` (old length `n`, new length `m ≥ 1`, `n ≥ 1`) keeps its physical centre
+`o' + (m-1)/2·s' = o + (n-1)/2·s` and its extent `m·s' = n·s`, and every other axis keeps
+its origin and sampling. -/
+theorem resampleNd_calibration (shape : List ℕ) (o s : List Rat) (pairs : List (ℕ × ℕ))
+    (hnd : (pairs.map Prod.fst).Nodup) :
+    (∀ p ∈ pairs, p.1 < o.length → p.1 < s.length → 0 < shape.getD p.1 0 → 0 < p.2 →
+      (Dataset.resampleCalib shape o s pairs).1.getD p.1 0
+          + ((p.2 : Rat) - 1) / 2 * (Dataset.resampleCalib shape o s pairs).2.getD p.1 0
+        = o.getD p.1 0 + ((shape.getD p.1 0 : Rat) - 1) / 2 * s.getD p.1 0 ∧
+      (p.2 : Rat) * (Dataset.resampleCalib shape o s pairs).2.getD p.1 0
+        = (shape.getD p.1 0 : Rat) * s.getD p.1 0) ∧
+    (∀ ax, (∀ p ∈ pairs, p.1 ≠ ax) →
+      (Dataset.resampleCalib shape o s pairs).1.getD ax 0 = o.getD ax 0 ∧
+      (Dataset.resampleCalib shape o s pairs).2.getD ax 0 = s.getD ax 0) := by
+  constructor
+  · intro p hp h1 h2 hn hm
+    rw [Dataset.resampleCalib_eq]
+    obtain ⟨e1, e2⟩ := Dataset.calibFold_mem shape o s pairs (o, s) hnd p hp h1 h2
+    rw [e1, e2]
+    exact ⟨resample_centre _ _ _ _, resample_extent _ _ _ _ hn hm⟩
+  · intro ax h
+    rw [Dataset.resampleCalib_eq]
+    exact Dataset.calibFold_other shape o s ax pairs (o, s) h
+
+/-! ### the mean reducer, padding to a smaller shape -/
+
+/-- **mean reducer**: `bin(..., reducer="mean")` returns every block sum divided by the block
+volume `vol` (the product of the bin factors, as `Dataset.bin` passes it): the result is the
+block-sum array of `bin_block` / `bin_total` with every entry divided by `vol`, i.e. element
+`j` is `(Σ_block a) / vol` — counts over the covered region are preserved up to exactly that
+factor. -/
+theorem bin_mean (d : Dataset.Ds) (dat : List Dataset.Val) (hd : d.data = some dat) (facs : List ℕ) (vol : ℕ) :
+    ∃ out, Dataset.binData d facs true vol = some out ∧
+      out = (binNd (⟨d.shape, dat⟩ : Arr Dataset.Val) facs).data.map (·.divNat vol) ∧
+      out.length = prod (binShape d.shape facs) ∧
+      ∀ j, InBox (binShape d.shape facs) j →
+        (⟨binShape d.shape facs, out⟩ : Arr Dataset.Val).get j
+          = (((allIdx facs).map fun t => (⟨d.shape, dat⟩ : Arr Dataset.Val).get (binSrc j facs t)).sum).divNat vol := by
+  refine ⟨_, by simp [Dataset.binData, hd], rfl, by simp [binNd, build_data_length], ?_⟩
+  intro j hj
+  have hb := (bin_block (⟨d.shape, dat⟩ : Arr Dataset.Val) facs).2 j hj
+  rw [← hb]
+  unfold Arr.get
+  have hlt : ravel (binShape d.shape facs) j < (binNd (⟨d.shape, dat⟩ : Arr Dataset.Val) facs).data.length := by
+    rw [show (binNd (⟨d.shape, dat⟩ : Arr Dataset.Val) facs).data.length = prod (binShape d.shape facs) from
+      build_data_length _ _]
+    exact ravel_lt hj
+  simp [List.getD_eq_getElem?_getD, List.getElem?_map, binNd, build, allIdx_getElem?_ravel hj]
+
+/-- **padding to an output shape that is not larger** (`out ≤ n` on an axis) pads nothing on
+that axis: both widths are 0, so `pad` leaves such axes (and, if all are, the whole array)
+unchanged. -/
+theorem pad_smaller (out : Int) (n : ℕ) (h : out ≤ n) : padWidths out n = (0, 0) := by
+  unfold padWidths
+  simp only
+  have h1 : (max 0 ((out - (n : Int)) / 2)).toNat = 0 := by omega
+  have h2 : (max 0 ((out - (n : Int) + 1) / 2)).toNat = 0 := by omega
+  rw [h1, h2]
 
 /-! ### non-vacuity -/
 
